@@ -76,6 +76,11 @@ private:
 	// true while there is an outstanding write operation to the server
 	bool m_writing_to_server;
 
+	// true from the moment the host lookup / connect for the first request of
+	// a client has been started until it completes. Requests arriving
+	// meanwhile are only queued in m_server_out_buffer
+	bool m_connecting_to_server = false;
+
 	// receive buffer for requests from the client. i.e. client -> proxy (us) -> server
 	char m_client_in_buffer[65536];
 	// buffer size
